@@ -251,16 +251,6 @@ implementation by the oracle (class `empty-part`, listed in `known_findings.json
 def witnessNonEmpty : Entry := Entry.ofTrials 0 (1/10) 1 (1/2) [⟨[1, 0], false, true⟩]
 def witnessEmpty : Entry := Entry.ofTrials 0 (1/10) 1 0 []
 
-def isConcatError : Except Err (List Group) → Bool
-  | .error .concat => true
-  | _ => false
-
-theorem isConcatError_iff (r : Except Err (List Group)) :
-    isConcatError r = true ↔ r = .error .concat := by
-  cases r with
-  | error e => cases e <;> simp [isConcatError]
-  | ok gs => simp [isConcatError]
-
 theorem empty_part_breaks_aggregate :
     witnessNonEmpty.WF ∧ witnessEmpty.WF ∧ witnessNonEmpty.key = witnessEmpty.key ∧
     pool [witnessNonEmpty, witnessEmpty] = pool [witnessNonEmpty] ∧
